@@ -101,7 +101,47 @@ def extreme_magnitude_stream(ctx, n):
                          r[1:3] if r[0] != "ok" else np.asarray(r[1].array).tolist(), replay=None)
 
 
+def single_precision_stream(ctx, n):
+    """the same lattice coordinates given as float32 / complex64 arrays (all intermediate values are small integers, exact in
+    single precision as well): join / meet must return the same projective object as for float64 / complex128"""
+    import geometer as g
+    from proto import proj_close_nn
+    gen = Gen(ctx.rng)
+    for k in range(n):
+        sc = jmlib.SCENARIOS[k % len(jmlib.SCENARIOS)]
+        op, args = jmlib.single_case(gen, sc) if k % 4 else jmlib.collection_case(gen, sc, degen_rate=0.0)
+        f = g.join if op == "join" else g.meet
+        impl = [a.impl() for a in args]
+        base = call_impl(f, *impl)
+        if base[0] != "ok":
+            continue
+        for dtype in (np.float32, np.complex64):
+            if dtype is np.float32 and not all(np.isrealobj(np.asarray(x.array)) for x in impl):
+                continue
+            cast = []
+            for x in impl:
+                y = x.copy()
+                y.array = np.asarray(x.array).astype(dtype)
+                cast.append(y)
+            desc = f"{op} {sc} with every argument given as {np.dtype(dtype).name}: {[np.asarray(x.array).tolist() for x in impl]}"
+            ctx.case(desc)
+            ctx.count(f"single-precision:{np.dtype(dtype).name}")
+            r = call_impl(f, *cast)
+            if r[0] != "ok":
+                ctx.disagree(f"C01:single-precision:{np.dtype(dtype).name}:raises", desc, "the object returned for double precision", r[1:3], replay=None)
+                continue
+            a, b = np.asarray(base[1].array), np.asarray(r[1].array)
+            nf = base[1].free_indices
+            ok = a.shape == b.shape and type(r[1]) is type(base[1])
+            if ok:
+                A, B = a.reshape((-1,) + a.shape[nf:]), b.reshape((-1,) + b.shape[nf:])
+                ok = all(proj_close_nn(A[i], B[i], rtol=1e-5) for i in range(A.shape[0]))
+            if not ok:
+                ctx.disagree(f"C01:single-precision:{np.dtype(dtype).name}", desc, a.tolist(), b.tolist(), replay=None)
+
+
 def correspondence(ctx):
+    single_precision_stream(ctx, ctx.budget(72, 720))
     jmlib.l3_shape_stream(ctx, ctx.budget(40, 400), "C01")
     extreme_magnitude_stream(ctx, ctx.budget(40, 400))
     import glob, json, os
